@@ -524,6 +524,64 @@ func racePass() {
 			wg.Wait()
 		}
 	}
+	// many searches at once on a quiescent index (the server's normal load): every returned score must be the distance
+	// between that caller's query and the item's vector - checked afterwards, single-threaded, with the same metric
+	for _, spn := range []string{"euclidean", "manhattan", "cosine"} {
+		sp := idxlib.Space(spn)
+		const dim, items, workers = 24, 96, 8
+		vec := func(seed int) []float32 {
+			v := make([]float32, dim)
+			x := uint64(seed)*0x9E3779B97F4A7C15 + 12345
+			for i := range v {
+				x = x*6364136223846793005 + 1442695040888963407
+				v[i] = float32((x>>40)%1000)/100 + 0.5
+			}
+			return v
+		}
+		ix := index.NewHnsw(dim, sp)
+		vecs := map[uuid.UUID][]float32{}
+		for i := 0; i < items; i++ {
+			id := world.ID(uint64(i+1), 0x5c)
+			vecs[id] = vec(i)
+			if err := ix.Insert(id, append([]float32{}, vecs[id]...), nil, i%3); err != nil {
+				panic(err)
+			}
+		}
+		type obs struct {
+			q   []float32
+			res index.SearchResult
+		}
+		out := make([][]obs, workers)
+		var wg sync.WaitGroup
+		for w := 0; w < workers; w++ {
+			wg.Add(1)
+			go func(w int) {
+				defer wg.Done()
+				for r := 0; r < iters; r++ {
+					q := vec(1000 + w*iters + r)
+					res, err := ix.Search(context.Background(), q, 5)
+					if err != nil {
+						panic(err)
+					}
+					out[w] = append(out[w], obs{q, res})
+				}
+			}(w)
+		}
+		wg.Wait()
+		bad := ""
+		for w := range out {
+			for _, o := range out[w] {
+				for _, it := range o.res {
+					if want := sp.Distance(o.q, vecs[it.Id]); it.Score != want && bad == "" {
+						bad = fmt.Sprintf("%s: %d concurrent searchers on a quiescent index of %d items: a search returned item %x with score %v, the distance between its query and that item is %v", spn, workers, items, it.Id[:2], it.Score, want)
+					}
+				}
+			}
+		}
+		if bad != "" {
+			fmt.Println("FREE-RUNNING-VIOLATION concurrent-search-returns-a-score-of-another-computation: " + bad)
+		}
+	}
 	fmt.Printf("RACEPASS iterations=%d scenarios=%d\n", iters, len(scenarios()))
 }
 
